@@ -158,16 +158,18 @@ func (c *RunnerCloserManager) Run(ctx context.Context) error {
 	defer close(c.stopped)
 
 	// If the main runner has at least one runner, add a closer that will
-	// close the context once Close() is called.
-	if len(c.mngr.runners) > 0 {
-		c.mngr.Add(func(ctx context.Context) error {
-			select {
-			case <-ctx.Done():
-			case <-c.closeCh:
-			}
-			return nil
-		})
+	// close the context once Close() is called. Whether there is one is decided
+	// when the main runner starts, under its lock: a runner can still be added
+	// until then.
+	c.mngr.lock.Lock()
+	c.mngr.withRunners = func(ctx context.Context) error {
+		select {
+		case <-ctx.Done():
+		case <-c.closeCh:
+		}
+		return nil
 	}
+	c.mngr.lock.Unlock()
 	verifPoint("closer.run.checked")
 
 	errCh := make(chan error, len(c.closers))
